@@ -108,7 +108,10 @@ structure RunShape where
   evmAfterWrite : Bool  -- on some path through the closure an EVM call on the same StateDB follows a keeper write
   deriving DecidableEq, Repr
 
-def RunShape.clean (sh : RunShape) : Bool := !sh.outerBefore && !sh.outerAfter && !sh.recovers && !sh.evmAfterWrite
+/-- the shapes for which a precompile call is all-or-nothing (`Props/C09.lean`: sufficient, and each condition necessary).
+A keeper write AFTER the native action is not in the list: it sits above the action's journal entry, whose snapshot
+restores the store as it was before the action — the order of the two statements is what matters. -/
+def RunShape.clean (sh : RunShape) : Bool := !sh.outerBefore && !sh.recovers && !sh.evmAfterWrite
 def RunShape.tidy : RunShape := { outerBefore := false, outerAfter := false, recovers := false, evmAfterWrite := false }
 
 /-- `StateDB.Transfer`: a native action that cannot fail once `CanTransfer` passed -/
@@ -243,7 +246,8 @@ def runTx (fuel gas : Nat) (p : List (Prog N)) (v : View N) : Outcome × View N 
 /-! ## Spec: the same language with whole-state snapshots instead of a journal
 "The surviving effects are those of calls all of whose enclosing frames returned normally": a frame that does not return
 normally hands back the state it was entered in.  The spec gives a meaning to precompile calls of the clean shape only
-(the others are exactly the ones for which no such meaning exists, see `Props/C09.lean`). -/
+(the others are exactly the ones for which no such meaning exists, see `Props/C09.lean`); a keeper write that `Run`
+makes after a successful native action is simply part of the call's effect. -/
 
 def View.sstore (v : View N) (k x : Nat) : View N := { v with slots := setSlot v.slots k x }
 def View.addLogs (v : View N) (ls : List Nat) : View N := { v with logs := ls.reverse ++ v.logs }
@@ -262,13 +266,15 @@ def specInner (ev : SEval N) (ro : Bool) : List (Nat × List (Prog N)) → View 
     else if r.1 = .abort then (.panic, v)
     else (.err, v)
 
-def specPre (ev : SEval N) (roCtx roCall : Bool) (gas req : Nat) (inner : List (Nat × List (Prog N))) (act : ActionX N)
-    (v : View N) : Outcome × View N × Nat :=
+def specPre (ev : SEval N) (roCtx roCall : Bool) (gas req : Nat) (sh : RunShape) (out : N → N)
+    (inner : List (Nat × List (Prog N))) (act : ActionX N) (v : View N) : Outcome × View N × Nat :=
   if gas < req then (.fail, v, 0) else
   match specInner ev roCtx inner v with
   | (.ok, v1) =>
     match (act roCall (gas - req) v1.native).1 with
-    | .ok => (.ok, { (v1.addLogs (act roCall (gas - req) v1.native).2.2) with native := (act roCall (gas - req) v1.native).2.1 }, gas - req)
+    | .ok => (.ok, { (v1.addLogs (act roCall (gas - req) v1.native).2.2) with
+                     native := if sh.outerAfter then out (act roCall (gas - req) v1.native).2.1
+                               else (act roCall (gas - req) v1.native).2.1 }, gas - req)
     | .err => (.fail, v, 0)
     | .panic => (.abort, v, 0)
   | (.err, _) => (.fail, v, 0)
@@ -301,10 +307,10 @@ def spec (fuel : Nat) (ro : Bool) (gas : Nat) (p : List (Prog N)) (v : View N) :
           (spec fuel (ro || h.kind == .staticcall) (fwdGas h gas + h.stip) body (v.enter h)) with
       | .inl x => spec fuel ro x.2 rest x.1
       | .inr r => r
-    | .pre h req _ _ inner act :: rest =>
+    | .pre h req sh out inner act :: rest =>
       if gas < h.callc ∨ (ro = true ∧ h.xfer.isSome = true) then (.fail, v, 0) else
       match specResolve h v (keepGas h gas)
-          (specPre (spec fuel) ro (h.kind != .call) (fwdGas h gas + h.stip) req inner act (v.enter h)) with
+          (specPre (spec fuel) ro (h.kind != .call) (fwdGas h gas + h.stip) req sh out inner act (v.enter h)) with
       | .inl x => spec fuel ro x.2 rest x.1
       | .inr r => r
 
@@ -323,5 +329,16 @@ inductive Clean : List (Prog N) → Prop
   | call {h body rest} : Clean body → Clean rest → Clean (.call h body :: rest)
   | pre {h req sh out inner act rest} : sh.clean = true → (∀ x ∈ inner, Clean x.2) → Clean rest →
       Clean (.pre h req sh out inner act :: rest)
+
+/-- no keeper part anywhere in the program ever panics (in particular: every program built from two-valued `Action`s) -/
+inductive NoPanic : List (Prog N) → Prop
+  | nil : NoPanic []
+  | sstore {c k v rest} : NoPanic rest → NoPanic (.sstore c k v :: rest)
+  | revert {c rest} : NoPanic (.revert c :: rest)
+  | stop {c rest} : NoPanic (.stop c :: rest)
+  | invalid {rest} : NoPanic (.invalid :: rest)
+  | call {h body rest} : NoPanic body → NoPanic rest → NoPanic (.call h body :: rest)
+  | pre {h req sh out inner act rest} : (∀ ro g n, (act ro g n).1 ≠ .panic) → (∀ x ∈ inner, NoPanic x.2) → NoPanic rest →
+      NoPanic (.pre h req sh out inner act :: rest)
 
 end FxVerif.Model.C09
